@@ -17,13 +17,13 @@ func (Default) Choose(string, int) int { return 0 }
 
 // token kinds
 const (
-	kID    = iota // identifier / number: must be separated from a neighbouring kID
-	kKW           // keyword (cut greedily, no space needed)
-	kOP           // + - * / % : needs a space on both sides
-	kPU           // punctuation / other operator
-	kST           // string literal
-	kNL           // line break; Indent = indentation of the next line
-	kLP           // opening bracket-like punctuation after which a line break is allowed
+	kID = iota // identifier / number: must be separated from a neighbouring kID
+	kKW        // keyword (cut greedily, no space needed)
+	kOP        // + - * / % : needs a space on both sides
+	kPU        // punctuation / other operator
+	kST        // string literal
+	kNL        // line break; Indent = indentation of the next line
+	kLP        // opening bracket-like punctuation after which a line break is allowed
 )
 
 type Tok struct {
@@ -644,9 +644,14 @@ func Layout(toks []Tok, ch Chooser) string {
 		}
 	}
 	curInd := 0
+	// deepBrk: the current line is a continuation line indented deeper than its
+	// statement; whether a further statement may follow on it after ； is not
+	// fixed by the manual (the parser attributes a statement to the indentation
+	// of the line it starts on), so ； is not offered there.
+	deepBrk := false
 	for i, t := range toks {
 		if t.K == kNL {
-			if t.Semi && ch.Choose("semi", 2) == 1 {
+			if t.Semi && !deepBrk && ch.Choose("semi", 2) == 1 {
 				if ch.Choose("punct:；", 2) == 1 {
 					b.WriteString(";")
 				} else {
@@ -668,6 +673,7 @@ func Layout(toks []Tok, ch Chooser) string {
 			}
 			indent(t.Indent)
 			curInd = t.Indent
+			deepBrk = false
 			continue
 		}
 		if i > 0 && toks[i-1].K != kNL {
@@ -705,6 +711,7 @@ func Layout(toks []Tok, ch Chooser) string {
 				} else if brk == 2 {
 					eol()
 					indent(curInd + 1)
+					deepBrk = true
 				} else {
 					switch ch.Choose("gap", 3) {
 					case 1:
